@@ -119,6 +119,26 @@ def forge_acks(cfg, s, tx, session_key, real_p):
             out.append((kind, enc.encode(a)))
         except Exception:
             pass
+    if real_p.type == 1 and session_key:
+        # a CONNECT acknowledgement whose PACKET signature is valid (it involves no secret) and that echoes the negotiated parameters,
+        # but whose connection response was made without the session key: the only proof of the key is the incremented check value
+        import struct
+        enc = prudp.PRUDPMessageSelector(s).select(cfg.version)
+        for j, resp in enumerate([b"", struct.pack("<II", 4, 0x12345678), struct.pack("<II", 4, 0), bytes(8), bytes(4), struct.pack("<II", 8, 1) + bytes(4)]):
+            a = prudp.PRUDPPacket(1, 1 | 8)
+            a.version = real_p.version
+            a.source_type, a.source_port, a.dest_type, a.dest_port = real_p.dest_type, real_p.dest_port, real_p.source_type, real_p.source_port
+            a.packet_id, a.fragment_id, a.substream_id = real_p.packet_id, 0, 0
+            a.session_id = (j * 37 + 5) & 0xFF
+            a.connection_signature = bytes(enc.signature_size())
+            a.max_substream_id, a.minor_version, a.supported_functions = real_p.max_substream_id, real_p.minor_version, real_p.supported_functions
+            a.initial_unreliable_id = 1
+            a.payload = resp
+            try:
+                a.signature = enc.calc_packet_signature(a, b"", enc.calc_connection_signature(tx.dst))
+                out.append(("connect-response", enc.encode(a)))
+            except Exception:
+                pass
     return out
 
 
@@ -209,7 +229,28 @@ def make_setup(cfg, mode, plan_filter, seed, allow=None):
                 q.connection_signature = bytes(rng.randrange(256) for _ in range(len(q.connection_signature)))
             q.signature = enc.calc_packet_signature(q, b"", enc.calc_connection_signature(tx.src))
             inj(tx.src, tx.dst, enc.encode(q), D + EPS, ("forged", "connect-replay:" + variant, 1, q.flags, tx.n))
+        def on_tx_trickle(tx):
+            # an idle established connection and a trickle of invalid but decodable datagrams from the peer's address (bit-flipped
+            # copies of a genuine DATA datagram, packets signed with another access key), several per keep-alive period: the
+            # keep-alive exchange must go on exactly as without them
+            pk = obs.decode(tx.data)
+            if not pk or pk[0].type != 2 or pk[0].flags & 1 or not pk[0].flags & 2:
+                return
+            key = "s" if tx.src == ps.SERVER else "c"
+            if key in out.__dict__.setdefault("_trickled", set()):
+                return
+            out._trickled.add(key)
+            data = tx.data
+            for k in range(1, 12):
+                b = (k * 37 + 11) % (len(data) * 8 - 40) + 40 if len(data) > 6 else 0
+                d = bytearray(data); d[b >> 3] ^= 1 << (b & 7)
+                inj(tx.src, tx.dst, bytes(d), D + 0.375 * k, ("flip1", tx.n, b))
+            for kind, ptype, flags, fdata in forge_variants(cfg, s, obs, tx, out.session_key, random.Random(seed ^ 0x77), pk[0]):
+                if kind == "access-key" and ptype in (2, 4):
+                    inj(tx.src, tx.dst, fdata, D + 0.1875 + 0.375 * ((ptype + flags) % 9 + 1), ("forged", kind, ptype, flags, tx.n))
         def on_tx(tx):
+            if mode == "idle-trickle":
+                return on_tx_trickle(tx)
             if mode.startswith("connect-replay"):
                 return on_tx_connect_replay(tx)
             if mode == "known-d18":
@@ -290,6 +331,11 @@ def loss_fate(seed):
 def run_pair(cfg, seed, mode, plan_filter=None, allow=None, want_ref=True):
     rng = random.Random(seed)
     script = script_for(cfg, rng)
+    if mode == "idle-trickle":
+        fate = lambda sim, r: (lambda tx: [D])
+        ref = ps.run_session(cfg, seed & 0xFFFF, script, fate, phases_gap=4.5) if want_ref else None
+        att = ps.run_session(cfg, seed & 0xFFFF, script, fate, phases_gap=4.5, setup=make_setup(cfg, mode, plan_filter, seed, allow))
+        return ref, att
     # the same genuine datagrams are lost in both runs: a forged acknowledgement then shows (no retransmission)
     # (decided by the datagram's content and how often it has been sent, not by a global index: two endpoints acting at
     # the same virtual instant have no defined order)
@@ -441,8 +487,8 @@ def run(ctx):
     quick = ctx.tier == "quick"
     ctx.rule = ("twin runs (reference / attacked) of real sessions; attacked = every single-bit flip of every genuine datagram "
                 "(exhaustive sessions) or 24 sampled bits per datagram, 6 double flips per datagram, and forged packets of 12 type/flag "
-                "combinations x {wrong access key, wrong session key, wrong connection signature, wrong session id, spoofed port}, the client's own CONNECT re-sent after the handshake "
-                "with another session id / connection-signature option (must be handled like a retransmission), "
+                "combinations x {wrong access key, wrong session key, wrong connection signature, wrong session id, spoofed port}, CONNECT acknowledgements with a valid packet signature but a connection response made without the session key, the client's own CONNECT re-sent after the handshake "
+                "with another session id / connection-signature option (must be handled like a retransmission), idle connections (several keep-alive periods) with a trickle of invalid datagrams, "
                 "injected just before/after the genuine datagram; v1 with/without credentials, v0 variants; every attacked v1/v0 run "
                 "is replayed through the Lean L1 model; distinct non-trivial = injected datagrams")
     jobs = []
@@ -458,6 +504,8 @@ def run(ctx):
     jobs.append((n, dict(base, version=0, v0=(0, 1, 1), credentials=True), 2, "known-d17")); n += 1
     for sd in range(3, 9):
         jobs.append((n, dict(base, version=1, credentials=False), sd, "known-d18")); n += 1
+    for creds in (True, False):
+        jobs.append((n, dict(base, version=1, credentials=creds, ping_timeout=1.0), ctx.rng.getrandbits(32), "idle-trickle")); n += 1
     for variant in ("identical", "session-id", "conn-sig", "both"):
         for creds in (True, False):
             for nth in ((1, 3) if quick else (1, 2, 3, 4)):
